@@ -114,6 +114,7 @@ type c18cfg struct {
 	cutFirst  bool // the link breaks right before the user cancels: the abort message cannot be written
 	bApproves bool // B's user approves at the moment A's user cancels
 	reReg     bool // A's user registers B once more at the moment the established connection ends
+	regAgainAt time.Duration // both users register the peer (again) at this time, when the connection is long established
 	otherAt   time.Duration // A's user registers a third, absent service at this time (notifications of one SKI must not affect another's)
 }
 
@@ -176,6 +177,14 @@ func c18Body(c c18cfg) func() {
 			simrt.Go("cutter", cutter)
 			simrt.RunFor(20 * time.Millisecond)
 			simrt.Unmark()
+		}
+		if c.regAgainAt > 0 {
+			// registering a service whose connection is established (to persist a pairing made through auto accept, or
+			// simply once more) changes nothing the hub reports, so it must not leave another state as the last notification
+			simrt.RunFor(c.regAgainAt)
+			b.Hub.RegisterRemoteSKI(a.SKI)
+			simrt.RunFor(10 * time.Millisecond)
+			a.Hub.RegisterRemoteSKI(b.SKI)
 		}
 		if c.unregAt > 0 {
 			simrt.RunFor(c.unregAt)
@@ -314,6 +323,8 @@ func c18Scenarios(r *hx.Run) []hx.Scenario {
 		{name: "local-cancel-vs-remote-approve", bTrustsA: false, bWaits: true, aCancels: true, bApproves: true},
 		{name: "unregister-broken-link", bTrustsA: true, bWaits: true, unregAt: 2 * time.Second, cutFirst: true},
 		{name: "unregister-pending-broken-link", bTrustsA: false, bWaits: true, unregAt: 2 * time.Second, cutFirst: true},
+		{name: "success+register-again", bTrustsA: true, bWaits: true, regAgainAt: 2 * time.Second},
+		{name: "auto-accept+register-afterwards", bAuto: true, bWaits: true, regAgainAt: 2 * time.Second},
 		{name: "register-again-broken-link", bTrustsA: true, bWaits: true, reReg: true, cutFirst: true},
 	}
 	var out []hx.Scenario
